@@ -58,6 +58,10 @@ CHECKS = {
             "Every closed coordinate sequence with 1..5 free vertices over the 3x3 lattice as a shell; four shells x every closed 3-/4-vertex sequence over the 4x4 window as a hole; a 6x4 shell with every (simple triangle, arbitrary 3-sequence) pair of holes; every ordered pair of simple lattice polygons as a MultiPolygon; {0,1,NaN,+inf,-inf}^4 in every geometry type. is_valid must equal the oracle, validation_errors must be empty iff valid, and every reported error must name a ring/member that really has the defect.",
             "Polygons valid by the wording of C14 but with a disconnected interior are dropped (counted). Error truth is not judged when a ring it names is itself malformed (counted).",
             "DESIGN.md §4 C14"),
+    "C04": ("E1-grid", "bounded exhaustive enumeration of operand pairs x operations vs per-face agreement on the exact arrangement of the input boundaries",
+            "Every ordered pair of operands from {empty, every simple lattice polygon, polygons with a (possibly touching) hole, two-member multipolygons} x {intersection, union, difference, xor}: on every face witness of the exact arrangement of both boundaries, inside(result) must equal the Boolean combination; every result vertex lies on an input boundary; exteriors CCW, holes CW, rings closed; the three area identities; operands rewritten with reversed windings, rotated rings, a repeated vertex and a repeated closing vertex; Polygon vs MultiPolygon operands and boolean_op; unary_union of consistently wound collections (both windings) vs the fold of unions vs the member union; clip(false/true) of every lattice line string (incl. along the boundary) per sub-edge of the arrangement, with length conservation.",
+            "inside(result,q) is evaluated in f64 at witnesses at least 1e-6 from every input boundary (none had to be skipped on these lattices; the count is reported). Snapping tolerance 1e-6.",
+            "DESIGN.md §4 C04"),
 }
 
 NOT_YET = "check not built yet in this round (planned: bounded exhaustive exploration, see DESIGN.md §4)"
